@@ -39,7 +39,37 @@ def required_cells(tier):
               "PG/shuffled", "PH/face-order", "PH/face-orientation", "any/numeric-type", "any/move-and-back"):
         req["variant:" + v] = 15 if q else 300
     req["foreign-type"] = 100
+    req["near-miss:coordinate -1 vs -2"] = 50
     return req
+
+
+def _neg_unit_pair(rng, k):
+    """two different objects that differ only in one coordinate being -1 vs -2, everything else in {0,1}
+    (CPython hashes -1.0 and -2.0 alike: the only way small lattice objects can collide in a hash)"""
+    ax = rng.randrange(3)
+    o1, o2 = [a for a in range(3) if a != ax]
+
+    def pt(u, v, w):
+        c = [F(0)] * 3
+        c[o1], c[o2], c[ax] = F(u), F(v), F(w)
+        return tuple(c)
+    out = []
+    for w in (-1, -2):
+        if k == "P":
+            out.append(("P", pt(1, 1, w)))
+        elif k == "VEC":
+            out.append(("VEC", pt(1, 1, w)))
+        elif k == "S":
+            out.append(("S", pt(0, 0, w), pt(1, 1, w)))
+        elif k in ("L", "H"):
+            out.append((k, pt(1, 0, w), K.sub(pt(1, 1, 0), pt(0, 0, 0))))
+        elif k == "PL":
+            out.append(("PL", pt(0, 0, w), pt(0, 0, 1)))
+        elif k == "PG":
+            out.append(("PG", (pt(0, 0, w), pt(1, 0, w), pt(1, 1, w), pt(0, 1, w))))
+        else:
+            out.append(K.hull3d([pt(u, v, z) for u in (0, 1) for v in (0, 1) for z in (w, 0)]))
+    return out
 
 
 def cases(rng, budget, widx, nworkers, tier):
@@ -48,6 +78,10 @@ def cases(rng, budget, widx, nworkers, tier):
     while True:
         k = KINDS[i % len(KINDS)]
         i += 1
+        if i % 17 == 0:
+            a, b = _neg_unit_pair(rng, k)
+            yield {"d": a, "vs": rng.getrandbits(30), "ns": rng.getrandbits(30), "nm": b, "label": "neg-unit-shift"}
+            continue
         d = ("VEC", gen.rdir(rng, 4)) if k == "VEC" else gen.rand_obj(rng, k, small=sm())
         yield {"d": d, "vs": rng.getrandbits(30), "ns": rng.getrandbits(30)}
 
@@ -266,7 +300,9 @@ def judge(case):
             mu.fail(key + ":equal-but-hash-differs", "a == b but hash(a)==hash(b) is %r and len({a,b}) = %r" % (res[4], res[5]))
     # near miss
     r2 = random.Random(case["ns"])
-    nm = _nearmiss(d, r2)
+    nm = case.get("nm") or _nearmiss(d, r2)
+    if case.get("nm"):
+        mu.cell("near-miss:coordinate -1 vs -2")
     if nm is not None and gen.ok_coords(nm, 64, 40):
         K.reset()
         truly_same = False
@@ -281,7 +317,7 @@ def judge(case):
             if exc is not None:
                 mu.fail("%s:near-miss:raises-%s" % (k, M.classify_exc(exc)), "comparing different objects raised %r" % exc)
             elif res[0] or res[1] or not res[2]:
-                mu.fail("%s:near-miss:different-sets-equal" % k, "different %ss compare equal: a==b %r, b==a %r, a!=b %r; %s vs %s" % (
+                mu.fail("%s:near-miss:different-sets-equal%s" % (k, "/minus1-vs-minus2" if case.get("nm") else ""), "different %ss compare equal: a==b %r, b==a %r, a!=b %r; %s vs %s" % (
                     gen.NAMES.get(k, k), res[0], res[1], res[2], C.show_short(d, 120), C.show_short(nm, 120)))
     _foreign(G, mu, A, k)
     return mu.result(outcome=lab)
